@@ -36,6 +36,8 @@ def set_open(keys) -> None:
 
 PLAIN = ["foo", "Bar", "baz_1", "a1", "UPPER", "word", "note", "about", "the", "n0", "Zed", "q_q", "alpha", "file",
          "none", "c", "S", "W"]
+# six digits that are NOT a calendar date: plain text even as the very first word of a body
+FIRST_ODD = ["123456", "999999", "241332", "000000"]
 LOOKALIKE = ["o", "x", "P5", "P0", "2024-01-01", "2031-12-31", "1234", "0930", "240101", "991231", "240101#zz",
              "000229#0A", "240305#abc"]
 SYMBOLS = ["--", "*", "&", "=>", "...", "|", "~", "<", ">", "=", "(", ")", "{x}", "`"]
@@ -142,7 +144,7 @@ def words(draw, names, n_min=1, n_max=8, first_plain=True, meta_rate=3, keys=Non
     out = []
     for i in range(n):
         if i == 0 and first_plain:
-            w = W(draw(st.sampled_from(PLAIN)))
+            w = W(draw(st.sampled_from(PLAIN if draw(st.integers(0, 11)) else FIRST_ODD)))
         elif draw(st.integers(0, 9)) < meta_rate:
             w = draw(meta_word(names, keys, scope_line))
         else:
